@@ -132,13 +132,21 @@ def correspond(ctx, scale):
         for call_no, Tcall in enumerate(call_temps):
             x = torch.randn(2, 3, d)
             log, restore = capture(cbs)
+            # ambient DEFAULT DTYPE of the process around the call (a float32 layer used inside bf16 / float64 code): the noise has the dtype of the
+            # logits, the sampling law does not depend on torch.get_default_dtype()
+            amb = [None, None, torch.bfloat16, torch.float64, None][(ci + call_no) % 5]
+            old_default = torch.get_default_dtype()
             try:
+                if amb is not None:
+                    torch.set_default_dtype(amb)
+                    dist['calls_under_other_default_dtype'] = dist.get('calls_under_other_default_dtype', 0) + 1
                 with torch.no_grad():
                     mod(x, freeze_codebook=True, **({'sample_codebook_temp': Tcall} if Tcall is not None else {}))
             except Exception as ex:
-                failures.append({'key': f'exception:{type(ex).__name__}', 'what': f'{kw} T={Tcall}: {ex!r}', 'case': dict(kw=kw)})
+                failures.append({'key': f'exception:{type(ex).__name__}', 'what': f'{kw} T={Tcall} default dtype {amb}: {ex!r}', 'case': dict(kw=kw)})
                 break
             finally:
+                torch.set_default_dtype(old_default)
                 restore()
             ev += 1
             Teff = Tcall if Tcall is not None else Tcfg
@@ -164,8 +172,11 @@ def correspond(ctx, scale):
                     failures.append({'key': 'noise-shape', 'what': f'{kw}: expected one noise tensor of the shape of the logits (independent noise per position and code), got {[tuple(e[1].shape) for e in noises]}', 'case': dict(kw=kw)})
                     continue
                 u, gout = noises[0][1], noises[0][2]
+                if gout.dtype != logits.dtype:
+                    failures.append({'key': 'noise-dtype', 'what': f'{kw}: the Gumbel noise has dtype {gout.dtype}, the logits {logits.dtype} (uniforms drawn on a coarser / other grid than the logits: ambient default dtype {amb})', 'case': dict(kw=kw)})
+                    continue
                 # cross-check of the capture: -log(-log(u)) recomputed equals what the module used
-                if not torch.allclose(-torch.log((-torch.log(u.clamp(min=1e-20))).clamp(min=1e-20)), gout, atol=1e-5, rtol=1e-5):
+                if not torch.allclose(-torch.log((-torch.log(u.float().clamp(min=1e-20))).clamp(min=1e-20)), gout.float(), atol=1e-5, rtol=1e-5):
                     failures.append({'key': 'noise-capture', 'what': 'captured uniforms do not reproduce the module\'s gumbel noise', 'case': dict(kw=kw)})
                     continue
                 U2 = u.reshape(-1, u.shape[-1])
